@@ -22,7 +22,9 @@ ArgShapes == {"none", "i64", "cstruct", "ref", "mutref", "slice", "mutslice", "s
               "aval", "aref", "aslice", "aopt", "ares",
               \* Option / Result written as a path: `::core::option::Option<u64>`, `std::option::Option<u64>`,
               \* `::core::result::Result<u64, u64>` - the same types as "opt" / "result", so the same C side
-              "optabs", "optstd", "resabs"}
+              "optabs", "optstd", "resabs",
+              \* an iterator whose source is not fused: it reports the end of a batch and yields again (the receiver polls on)
+              "iterq"}
 RetShapes == {"unit", "i64", "cstruct", "slice", "mutslice", "str", "opt", "optnpo", "optptr", "refret", "mutrefret", "optstruct",
               "result", "resunit", "resneg", "resio",
               \* `::core::option::Option<u64>`, `::std::result::Result<u64, ()>`
@@ -43,7 +45,7 @@ CArg(a) ==
     [] a \in {"result", "resabs"} -> <<"CResult<u64,u64>">> [] a = "into" -> <<"u64">>
     [] a = "aval" -> <<"CGlueAItem">> [] a = "aref" -> <<"&CGlueAItem">> [] a = "aslice" -> <<"CSliceRef<CGlueAItem>">>
     [] a = "aopt" -> <<"COption<CGlueAItem>">> [] a = "ares" -> <<"CResult<CGlueAItem,u64>">>
-    [] a = "callback" -> <<"OpaqueCallback<u64>">> [] OTHER -> <<"CIterator<u64>">>
+    [] a = "callback" -> <<"OpaqueCallback<u64>">> [] OTHER -> <<"CIterator<u64>">>   \* iter, iterq
 (* return type and trailing output parameter *)
 CRet(t, ir) ==
   CASE t = "unit" -> [ret |-> "()", out |-> <<>>] [] t = "i64" -> [ret |-> "i64", out |-> <<>>]
@@ -72,7 +74,7 @@ FfiSafeTypes == {"i64", "i32", "()", "Pt", "&u64", "&mutu64", "CSliceRef<u8>", "
 
 Borrowing(t) == t \in {"slice", "str", "optnpo", "mutslice", "refret", "mutrefret"}
 (* argument shapes that carry an (elided) lifetime of their own *)
-ArgBorrows(a) == a \in {"ref", "mutref", "slice", "mutslice", "str", "optnpo", "optmut", "slice64", "mutslice64", "slicezst", "callback", "iter", "aref", "aslice"}
+ArgBorrows(a) == a \in {"ref", "mutref", "slice", "mutslice", "str", "optnpo", "optmut", "slice64", "mutslice64", "slicezst", "callback", "iter", "iterq", "aref", "aslice"}
 Supported(r, a, t) ==
   /\ (Borrowing(t) => r # "own")               \* nothing to borrow from a consumed receiver
   /\ (t \in {"mutslice", "mutrefret"} => r \in {"mut", "pinmut"})
